@@ -258,13 +258,13 @@ func ruleD3(w *world.World, r *report.RuleResult) {
 			}
 		}
 		if iff := world.IfOf(b); iff != nil {
-			if neg, ok := isAlwaysTest(iff.Cond); ok {
+			if neg, ok := isAlwaysTest(world.CondValue(iff)); ok {
 				// edge where strategy != always
 				if (si == 1) != neg {
 					f |= SAFE
 				}
 			}
-			if neqOnTrue, ok := isDbTest(iff.Cond); ok {
+			if neqOnTrue, ok := isDbTest(world.CondValue(iff)); ok {
 				// edge where database == currentDatabase
 				if (si == 1) == neqOnTrue {
 					f |= MARK
@@ -436,6 +436,33 @@ func ruleD3(w *world.World, r *report.RuleResult) {
 			return 0
 		}
 		must := world.Must(fn, eg, gen, nil)
+		// the function exists to empty the log: it reports success only after the handle was truncated
+		// successfully (the caller - the rewrite - has just written a preamble that contains everything
+		// the log holds; keeping the log as well would replay those commands a second time)
+		{
+			const TR world.Facts = 2
+			egT := func(b *ssa.BasicBlock, si int) world.Facts {
+				if world.ErrNilEdge(b, func(v ssa.Value) bool { return v == ssa.Value(trunc) }) == si {
+					return TR
+				}
+				return 0
+			}
+			mustT := world.Must(fn, egT, nil, nil)
+			k := 0
+			for _, ret := range world.Returns(fn) {
+				rv := world.RetVals(ret)
+				if len(rv) != 1 || !world.IsNilConst(rv[0]) || guardedByNilHandle(ret) {
+					continue
+				}
+				k++
+				key := fmt.Sprintf("%s|truncate-success-before-ack#%d", world.FuncName(fn), k)
+				if world.FactsAt(mustT, ret, nil, nil)&TR != 0 {
+					r.OK(key, w.InstrPos(ret), "success is reported only on the success edge of the handle's Truncate")
+				} else {
+					r.Fail(key, w.InstrPos(ret), fmt.Sprintf("%s can report success without having emptied the log file: after a rewrite the preamble (which already contains the effect of every logged command) is followed by the old log, and the next restore applies those commands a second time - APPEND, INCR, LPUSH and every other non-idempotent write is duplicated", world.FuncName(fn)))
+				}
+			}
+		}
 		n := 0
 		for _, ret := range world.Returns(fn) {
 			rv := world.RetVals(ret)
@@ -464,7 +491,7 @@ func guardedByNilHandle(ret *ssa.Return) bool {
 	if iff == nil {
 		return false
 	}
-	x, eq, ok := world.NilTest(iff.Cond)
+	x, eq, ok := world.NilTest(world.CondValue(iff))
 	if !ok {
 		return false
 	}
